@@ -373,7 +373,7 @@ func genC09(g *Gen, tier string, idx int) *wire.Scenario {
 		x.Typed = g.word(false, 5)
 	}
 	for _, r := range x.Typed {
-		sc.Script = append(sc.Script, tok(string(r), "self-insert"))
+		sc.Script = append(sc.Script, tok(string(r), "typed"))
 	}
 	steps := g.Range(1, 12)
 	if g.P(15) {
@@ -422,8 +422,15 @@ func genC09(g *Gen, tier string, idx int) *wire.Scenario {
 
 func execC09(x *Ctx, sc *wire.Scenario) *wire.Result {
 	res := okResult(sc)
+	// the text being typed is the leading run of typed tokens (so that a minimised script,
+	// from which tokens were dropped, still says what was typed)
 	var xx c09X
-	jsonInto(sc.X, &xx)
+	for _, t := range sc.Script {
+		if t.Cmd != "typed" {
+			break
+		}
+		xx.Typed += string(t.B)
+	}
 	entries := sc.Env.History[0].Entries
 	faulty := sc.Env.History[0].FailGet > 0
 	var beforeList, afterList []string
@@ -468,6 +475,7 @@ func execC09(x *Ctx, sc *wire.Scenario) *wire.Result {
 	inProgress := xx.Typed
 	variants := map[string]bool{xx.Typed: true} // legitimate in-progress texts
 	var lastInProg *sim.Snap
+	var inProgSnaps []*sim.Snap
 	isNav := func(cmd string) (walk, search bool) {
 		for _, w := range walkCmds {
 			if w == cmd {
@@ -481,11 +489,22 @@ func execC09(x *Ctx, sc *wire.Scenario) *wire.Result {
 		}
 		return false, false
 	}
+	// Shell.Line() still shows the search minibuffer at the wait that follows the end of an
+	// incremental search (the screen shows the real line): that snapshot says nothing about the line
+	stale := false
+	// commands run inside an incremental search act on its minibuffer, and what they leave as the line being
+	// typed cannot be observed: after such a session only membership (typed text or stored entry) is judged
+	hadIsearch := false
 	for i := typedN; i < len(sc.Script); i++ {
 		t := sc.Script[i]
 		before := waitAfter(out, i)
 		after := waitAfter(out, i+1)
 		walk, search := isNav(t.Cmd)
+		staleBefore := stale
+		if (before != nil && before.Local == "isearch") || (after != nil && after.Local == "isearch") {
+			hadIsearch = true
+		}
+		stale = before != nil && after != nil && before.Local == "isearch" && after.Local != "isearch"
 		if len(out.Returns) > 0 && after == nil {
 			if walk || search {
 				return violation(res, "MISMATCH", "C09.navigation-does-not-return", "returned:"+t.Cmd,
@@ -499,6 +518,11 @@ func execC09(x *Ctx, sc *wire.Scenario) *wire.Result {
 		}
 		if exact && pos == -1 {
 			lastInProg = before
+		}
+		if variants[before.Line] && !staleBefore {
+			// every (text, point) in which the line being typed was seen: the prefix searches take
+			// their search text from that line, as it was when it was left
+			inProgSnaps = append(inProgSnaps, before)
 		}
 		if !walk && !search {
 			// incremental search keys and exits: the model position is unknown afterwards;
@@ -551,13 +575,25 @@ func execC09(x *Ctx, sc *wire.Scenario) *wire.Result {
 		if variants[after.Line] || after.Line == before.Line {
 			continue
 		}
+		if staleBefore {
+			res.Counters["skipped:search_after_isearch_exit"]++
+			continue
+		}
 		if !isEntry(after.Line) {
-			return violation(res, "MISMATCH", "C09.buffer-is-typed-text-or-stored-entry", "foreign-buffer:"+t.Cmd,
+			sig := "foreign-buffer:" + t.Cmd
+			if hadIsearch {
+				sig = "foreign-buffer:after-isearch-session"
+			}
+			return violation(res, "MISMATCH", "C09.buffer-is-typed-text-or-stored-entry", sig,
 				fmt.Sprintf("after %s the buffer is %q, which is neither the text being typed %q nor a stored entry %q", t.Cmd, after.Line, inProgress, entries))
+		}
+		if hadIsearch {
+			res.Counters["skipped:search_match_after_isearch_session"]++
+			continue
 		}
 		// the search text: what is left of the cursor, in the line shown or in the line being typed
 		var lefts []string
-		for _, w := range []*sim.Snap{before, lastInProg} {
+		for _, w := range append([]*sim.Snap{before, lastInProg}, inProgSnaps...) {
 			if w == nil {
 				continue
 			}
@@ -568,6 +604,7 @@ func execC09(x *Ctx, sc *wire.Scenario) *wire.Result {
 			}
 			lefts = append(lefts, string(rs[:cp]), w.Line)
 		}
+		lefts = dedupe(lefts)
 		okPrefix, okSub := false, false
 		for _, l := range lefts {
 			if strings.HasPrefix(after.Line, l) {
@@ -611,4 +648,16 @@ func findReturn(out *sim.Outcome) (sim.Return, bool) {
 		return sim.Return{}, false
 	}
 	return out.Returns[0], true
+}
+
+func dedupe(xs []string) []string {
+	seen := map[string]bool{}
+	var out []string
+	for _, x := range xs {
+		if !seen[x] {
+			seen[x] = true
+			out = append(out, x)
+		}
+	}
+	return out
 }
